@@ -40,7 +40,45 @@ M = {
  "C17-B": ("process-wide registry of files currently being parsed, to detect include cycles at once", "a build reaching `.include F` while another thread's build is still inside F"),
  "C18-A": ("writers stream through a BufWriter that is never flushed: I/O errors are swallowed in Drop", "an output location that opens but rejects writes (/dev/full, full disk) and a hex text below 8 KiB"),
  "C18-B": ("default output name built with file_prefix() instead of file_stem()", "a source file name with more than one dot, and a default output name in use"),
+ # ---- round 2 (same protocol, prompt asked for changes that need something specific to manifest) ----
+ "C01-C": ("`pc` is published once per segment and after items that move the counter; the `.db/.dw` arm forgets to", "a data directive in the code segment directly followed by an instruction whose operand uses `pc`"),
+ "C01-D": ("the symbol-resolution budget of expression evaluation (100 000) moved into the build context and is never reset", "one build with more than 100 000 look-ups of expression-defined symbols in total (e.g. ~25 000 instructions using such a symbol)"),
+ "C02-C": ("`.db` strings are emitted one byte per character (Latin-1) but still sized by their UTF-8 length", "a `.db` string with a character in U+0080..U+00FF followed by anything whose address matters"),
+ "C02-D": ("'is this the reduced core' cached in a thread_local by Operation::info(), never reset", "on one thread: a build with lds/sts, then a build for the other kind of core with lds/sts followed by labels"),
+ "C03-C": ("an `.equ` whose definition is not a literal is frozen to its first evaluated value", "an `.equ` defined through `pc`, used at two different addresses (not pinned by any property: the late evaluation of `pc` inside `.equ` is a quirk of this tool, see 15.4)"),
+ "C03-D": ("rjmp/rcall displacement wrapped modulo 4096 on devices with exactly 4096 words of flash", "such a device (ATmega8, ...) and an rjmp/rcall whose target is more than 2047 ahead / 2048 behind"),
+ "C04-C": ("register-class checks folded into a helper that only tests registers written literally", "a `.def` alias of an out-of-class register in a class-restricted position"),
+ "C04-D": ("relative displacement cast to i16 before the shared range check", "a target whose distance is k*65536 + (in-range value), k != 0"),
+ "C05-C": ("`+`/`-` chains accumulated in i128 with one range check at the end", "a chain of two or more `+`/`-` whose running value leaves the i64 range and comes back"),
+ "C05-D": ("nesting depth of symbol definitions is counted but never wound back", "one evaluation resolving more than 64 expression-defined symbols side by side"),
+ "C06-C": ("byte length of a `.db` line cached by (line number, item number)", "two `.db` lines with the same line number and different lengths (main file and include, or a macro `.db \"@0\"`)"),
+ "C06-D": ("pass 2 builds the flash image first and the EEPROM image second (two walks over the segments)", "an EEPROM data directive using a `.set` symbol that a later code segment re-assigns (or the reverse)"),
+ "C07-C": ("writers merged; file opened with OpenOptions write+create, without truncate", "the output path already holds a longer file"),
+ "C07-D": ("CRLF text assembled in a thread_local buffer that is cleared after the write - not when the write fails", "a failed write followed by any other write on the same thread"),
+ "C08-C": ("skip pre-filter looks for the directive after the first `:` of the line", "a conditional directive met while skipping whose trailing comment contains a `:`"),
+ "C08-D": ("expansion cache for argument-less macros keyed by (name, segment start address)", "a macro without arguments used twice whose body holds a conditional that is decided differently the second time"),
+ "C09-C": ("expansion cache keyed by macro name + rendered arguments", "the same call twice, in different `.org` regions or with an emit-once conditional in the body"),
+ "C09-D": ("macro call stack (for diagnostics) is not popped when an expansion places nothing", "64 macro calls with empty expansion in one build, then any macro call"),
+ "C10-C": ("`.set` also evaluated at parse time; table cleared after parsing, but pass 0 re-parses macro bodies", "a `.set` inside an invoked macro body and a reference to the symbol before the call"),
+ "C10-D": ("pass 2 skips data segments altogether", "a `.def`, `.undef` or `.set` standing in `.dseg`, used later in `.cseg`/`.eseg`"),
+ "C11-C": ("directory of an included file taken from the name as written", "an include with a directory part found through a search directory, including a neighbour by bare name"),
+ "C11-D": ("directories added by an included file are copied back by position in the sorted set", "an included file doing `.includepath` with a directory that sorts before one already known; a later include from it"),
+ "C12-C": ("pass-0 capacity guard counts lds/sts as two words on every device", "`.device ATtiny20` with the flash filled (nearly) exactly by one-word lds/sts"),
+ "C12-D": ("'device already selected' kept in a Cell<bool> that is copied into include/macro contexts", "first `.device` inside an include or macro body, second one outside it"),
+ "C13-C": ("device-gate verdict memoised per mnemonic in pass 2", "an allowed form of a mnemonic before a lacking form of the same mnemonic in one segment"),
+ "C13-D": ("mnemonic gate moved into pass 0, using a device snapshot taken before macro expansion", "`.device` executed during pass 0 (inside a macro body) and a lacking mnemonic"),
+ "C14-C": ("skip fast path recognises conditional directives only when the name is followed by a blank", "while skipping: `.else;x`, `.endif//x`, `.if(1)` and the like"),
+ "C14-D": ("re-assignment of a `.set` symbol filed under its source spelling", "a second `.set` of a name written with an upper-case letter"),
+ "C15-C": ("`.error` deferred to the end of parse(); macro expansion never looks at the list", "an `.error` assembled inside the body of an invoked macro"),
+ "C15-D": ("`&&`/`||` short-circuit", "an undefined symbol (or division by zero) right of `&&`/`||` whose left operand decides"),
+ "C16-C": ("macro nesting depth not incremented for body pieces behind a segment directive", "a macro calling itself after a segment switch in its body"),
+ "C16-D": ("capacity checks moved into the per-item `advance` of pass 1", "an `.org` far beyond the device followed only by lines that occupy no space"),
+ "C17-C": ("instruction counter of the pass-0 capacity guard became a process-wide atomic", "two builds in pass 0 at the same time whose instruction counts together exceed one device's flash"),
+ "C17-D": ("evaluation guards kept in thread_local cells; the nesting level is not restored on the error path", "on one thread: a build failing inside a symbol's definition (cyclic `.equ`), then a build using an expression-defined symbol"),
+ "C18-C": ("records streamed through a BufWriter that is dropped without flush", "an output that opens but rejects writes, and a hex text below the 8 KiB buffer"),
+ "C18-D": ("default output path = source.with_extension(\"\").with_extension(ext)", "no -o/-e and a source name whose stem contains a dot"),
 }
+MATRIX = json.load(open(os.path.join(ROOT, "seeded", "matrix.json"))) if os.path.exists(os.path.join(ROOT, "seeded", "matrix.json")) else {}
 rows = []
 for sid in sorted(M):
     d = os.path.join(ROOT, "seeded", sid)
@@ -48,7 +86,11 @@ for sid in sorted(M):
         continue
     ev = json.load(open(os.path.join(d, "eval.json"))) if os.path.exists(os.path.join(d, "eval.json")) else {}
     conf = ev.get("confirm", {})
-    det = ev.get("detect", {})
+    det = dict(ev.get("detect", {}))
+    if isinstance(MATRIX.get(sid), dict) and "error" not in MATRIX[sid]:
+        # the full matrix (tools/seed_matrix_iso.py) is newer than the single detect runs
+        for k, v in MATRIX[sid].items():
+            det[k] = {"exit": v.get("exit"), "violations": v.get("violating_keys"), "first_keys": [v.get("first_key")], "source": "matrix"}
     caught = sorted(k for k, v in det.items() if isinstance(v, dict) and v.get("exit") == 1)
     quiet = sorted(k for k, v in det.items() if isinstance(v, dict) and v.get("exit") == 0)
     broken = sorted(k for k, v in det.items() if isinstance(v, dict) and v.get("exit") not in (0, 1))
@@ -68,7 +110,7 @@ for sid in sorted(M):
             "commands": ["git apply patch.diff", "cargo test --offline", "cp demo.rs tests/seed_demo.rs && cargo test --offline --test seed_demo", "git checkout -- . && cargo test --offline --test seed_demo"],
         },
         "checks_run_against_it": {"how": "git -C /repo apply patch.diff; ./run <check> quick; git -C /repo checkout -- .", "caught_by": caught, "quiet": quiet, "machinery_exit_2": broken,
-                                  "first_violation_of_target_check": (det.get(sid.split("-")[0], {}) or {}).get("first_keys", [None])[0] if det.get(sid.split("-")[0]) else None},
+                                  "first_violation_of_target_check": ((det.get(sid.split("-")[0], {}) or {}).get("first_keys") or [None])[0] if det.get(sid.split("-")[0]) else None},
     }
     json.dump(meta, open(os.path.join(d, "meta.json"), "w"), indent=1)
     rows.append((sid, M[sid][1], caught, broken))
